@@ -171,6 +171,7 @@ func cmdCheck(args []string) {
 		fn := eng.funcs[k]
 		if fn == nil {
 			undecided = append(undecided, "anchor-missing:"+k)
+			undecFn["anchor-missing:"+k] = k
 			continue
 		}
 		c := eng.contracts[k]
@@ -303,7 +304,7 @@ func cmdCheck(args []string) {
 		}
 	}
 	heldByFallback := map[string][]string{} // function -> fallback names that passed
-	var fallbackEv []interface{}
+	fallbackEv := []interface{}{}
 	fallbackRan := map[string]*boundedResult{}
 	var fns []string
 	for fn := range problems {
@@ -453,7 +454,7 @@ func cmdCheck(args []string) {
 			}
 		}
 	}
-	var boundedEv []interface{}
+	boundedEv := []interface{}{}
 	for range cfg.BoundedRuns {
 		r := <-boundedCh
 		res := "held on every case within the bound"
